@@ -45,6 +45,8 @@ def jobs(tier, seed):
                         for thr in ("0", "1"):
                             if n == 3 and (N == 2 and thr == "1"):
                                 continue
+                            if n == 3 and N == 2 and move == "burnin" and outl:
+                                continue        # > 25 min per job (probed); the single-particle variant stays
                             out.append({"name": f"step-{move}-{kern}-n{n}-out{int(outl)}-N{N}-thr{thr}", "kind": "step", "move": move, "n": n, "G": 2,
                                         "outliers": outl, "kernel": kern, "wiring": "run", "N": N, "thr": thr, "fixed": {}, "cost": 10 * n ** 3 * N})
     # boundary of the accepted range: --outlier-prob 1.0 (log p = 0, log(1-p) = -inf)
@@ -75,7 +77,7 @@ def jobs(tier, seed):
                                 continue
                             out.append({"name": f"chain-{kern}-n{n}-out{int(outl)}-subtree{sub}-N{N}-thr{thr}", "kind": "chain", "kernel": kern, "n": n,
                                         "outliers": outl, "subtree": sub, "N": N, "thr": thr, "burnin": 1, "iters": 1 if n == 2 else 2, "conc": True,
-                                        "cost": 400 if (n == 2 and N == 2) else 5 * n})
+                                        "cost": 400 if (n == 2 and N == 2) else 5 * n, "budget_s": 6000 if (n == 2 and N == 2) else None})
     out.append({"name": "canary-subtree_move_needs_a_clone", "canary": "subtree_move_needs_a_clone", "kind": "step", "move": "subtree", "n": 2, "G": 2,
                 "outliers": True, "kernel": "semi", "wiring": "run", "N": 2, "thr": "0", "fixed": {}, "cost": 10})
     out.append({"name": "canary-resample_after_last_point", "canary": "resample_after_last_point", "kind": "chain", "kernel": "semi", "n": 1, "outliers": False,
